@@ -259,11 +259,9 @@ func (e *Engine) symRangeNext(st *State, fr *Frame, in *ssa.Next, it *rangeIter)
 			idx = i
 		}
 	}
-	fr2regs := fr.regs
-	fr.regs[in] = VTuple{[]Value{sym(TFalse), e.zeroOf(tt.At(1).Type()), e.zeroOf(tt.At(2).Type())}}
+	stExit.wregs(fr)[in] = VTuple{[]Value{sym(TFalse), e.zeroOf(tt.At(1).Type()), e.zeroOf(tt.At(2).Type())}}
 	e.runFrom(stExit, fr, b, idx+1)
-	fr.regs = fr2regs
-	fr.regs[in] = VTuple{[]Value{sym(TTrue), sym(k), val}}
+	st.wregs(fr)[in] = VTuple{[]Value{sym(TTrue), sym(k), val}}
 	return true
 }
 
@@ -287,10 +285,10 @@ func (e *Engine) ptrOptions(st *State, fr *Frame, t types.Type, hint string) []V
 		}
 	}
 	for _, p := range fr.fn.Params {
-		add(fr.regs[p], p.Type())
+		add(st.rregs(fr)[p], p.Type())
 	}
 	for _, fv := range fr.fn.FreeVars {
-		add(fr.regs[fv], fv.Type())
+		add(st.rregs(fr)[fv], fv.Type())
 	}
 	return opts
 }
@@ -309,7 +307,7 @@ func (e *Engine) havocLoopTargets(st *State, fr *Frame, header *ssa.BasicBlock) 
 		for _, ins := range b.Instrs {
 			switch x := ins.(type) {
 			case *ssa.Store:
-				if v, ok := fr.regs[x.Addr]; ok {
+				if v, ok := st.rregs(fr)[x.Addr]; ok {
 					if p, ok := v.(VPtr); ok {
 						et := x.Addr.Type().(*types.Pointer).Elem()
 						if isPtrToStruct(et) {
@@ -328,7 +326,7 @@ func (e *Engine) havocLoopTargets(st *State, fr *Frame, header *ssa.BasicBlock) 
 				// a pointer to a field of an outer variable escapes into an interface (e.g. Scan(&e.key)):
 				// the callee may assign through it
 				if fa, ok := x.X.(*ssa.FieldAddr); ok {
-					if v, ok := fr.regs[fa.X]; ok {
+					if v, ok := st.rregs(fr)[fa.X]; ok {
 						if p, ok := v.(VPtr); ok {
 							ft := fa.Type().(*types.Pointer).Elem()
 							e.store(st, VPtr{Cell: p.Cell, Path: fmt.Sprintf("%s.%d", p.Path, fa.Field)}, e.havoc(st, ft, "escaped"))
@@ -336,12 +334,12 @@ func (e *Engine) havocLoopTargets(st *State, fr *Frame, header *ssa.BasicBlock) 
 					}
 				}
 			case *ssa.MapUpdate:
-				if v, ok := fr.regs[x.Map]; ok {
+				if v, ok := st.rregs(fr)[x.Map]; ok {
 					e.havocMap(st, v)
 				}
 			case *ssa.Call:
 				if bi, ok := x.Call.Value.(*ssa.Builtin); ok && bi.Name() == "delete" {
-					if v, ok := fr.regs[x.Call.Args[0]]; ok {
+					if v, ok := st.rregs(fr)[x.Call.Args[0]]; ok {
 						e.havocMap(st, v)
 					}
 				}
@@ -352,10 +350,10 @@ func (e *Engine) havocLoopTargets(st *State, fr *Frame, header *ssa.BasicBlock) 
 		if phi, ok := ins.(*ssa.Phi); ok {
 			if isPtrToStruct(phi.Type()) {
 				ph := phi
-				choices = append(choices, ptrChoice{set: func(s *State, v Value) { fr.regs[ph] = v },
+				choices = append(choices, ptrChoice{set: func(s *State, v Value) { s.wregs(fr)[ph] = v },
 					options: e.ptrOptions(st, fr, phi.Type(), "loopphi")})
 			} else {
-				fr.regs[phi] = e.havoc(st, phi.Type(), "loopphi")
+				st.wregs(fr)[phi] = e.havoc(st, phi.Type(), "loopphi")
 			}
 		}
 	}
@@ -635,7 +633,7 @@ func (e *Engine) genericLoopHeader(st *State, fr *Frame, b *ssa.BasicBlock) (han
 	// map-range loops over symbolic maps are handled at the Next instruction
 	for _, in := range b.Instrs {
 		if nx, ok := in.(*ssa.Next); ok && !nx.IsString {
-			if itv, ok := fr.regs[nx.Iter].(VAbs); ok && itv.Kind == "iter" {
+			if itv, ok := st.rregs(fr)[nx.Iter].(VAbs); ok && itv.Kind == "iter" {
 				if it, ok := itv.Data.(*rangeIter); ok && (it.sym != nil || it.arbitrary == nil) {
 					return false, false // symbolic scalar maps: rule at Next; concrete maps: plain iteration
 				}
@@ -754,13 +752,13 @@ func (e *Engine) evalLoopClauses(st *State, fr *Frame, cls []Clause, iterKey str
 	vars := map[string]Value{}
 	typs := map[string]types.Type{}
 	for _, p := range fr.fn.Params {
-		if v, ok := fr.regs[p]; ok {
+		if v, ok := st.rregs(fr)[p]; ok {
 			vars[p.Name()] = v
 			typs[p.Name()] = p.Type()
 		}
 	}
 	for _, fv := range fr.fn.FreeVars {
-		if v, ok := fr.regs[fv]; ok {
+		if v, ok := st.rregs(fr)[fv]; ok {
 			// a captured variable is a pointer to its cell: contracts name the variable, i.e. its current value
 			if p, ok := v.(VPtr); ok {
 				if pt, ok := fv.Type().Underlying().(*types.Pointer); ok {
@@ -833,7 +831,7 @@ func (e *Engine) havocLvalue(st *State, fr *Frame, n *rNode) ([]ptrChoice, bool)
 	var ct types.Type
 	for _, p := range fr.fn.Params {
 		if p.Name() == n.Text {
-			cur, ct = fr.regs[p], p.Type()
+			cur, ct = st.rregs(fr)[p], p.Type()
 		}
 	}
 	if cur == nil {
@@ -890,7 +888,7 @@ func (e *Engine) havocPath(st *State, fn *ssa.Function, args []Value, n *rNode) 
 	fr := &Frame{fn: fn, regs: map[ssa.Value]Value{}}
 	for i, p := range fn.Params {
 		if i < len(args) {
-			fr.regs[p] = args[i]
+			st.wregs(fr)[p] = args[i]
 		}
 	}
 	choices, ok := e.havocLvalue(st, fr, n)
